@@ -1040,7 +1040,10 @@ class ConnectionBase(object):
         #self.pending_messages = {}  # seqnum -> (typ, msg)
         self.pending_fragments = {} # frag_seq -> FragmentSender
         self.received_fragments = {} # frag_seq -> FragmentReceiver
-        self.completed_fragments = [] # frag_seq of recently completed messages
+        # frag_seq of completed messages. the window covers every fragmented
+        # message that is less than half the datagram sequence range
+        # (at least two datagrams per message) older than the newest one
+        self.completed_fragments = BitField(0x4000)
 
         self.pending_retry = {}      # msgseq -> msg
         self.pending_retry_msg = {}      # seqnum -> list-of-msgseq
@@ -1523,7 +1526,7 @@ class ConnectionBase(object):
         # a fragment of a message that was already delivered. the sender
         # did not receive the ack for this fragment and sent it again
         # (using a new message sequence number)
-        if frag_id in self.completed_fragments:
+        if self.completed_fragments.contains(SeqNum(frag_id)):
             return
 
         # for the first fragment received from a message,
@@ -1539,9 +1542,10 @@ class ConnectionBase(object):
             receiver = self.received_fragments[frag_id]
             self._recvApp(receiver.msgseq, receiver.payload())
             del self.received_fragments[frag_id]
-            self.completed_fragments.append(frag_id)
-            if len(self.completed_fragments) > 256:
-                self.completed_fragments.pop(0)
+            try:
+                self.completed_fragments.insert(SeqNum(frag_id))
+            except DuplicationError:
+                pass
 
         # remove expired fragments
         # these are likely a result of duplicate packets being received after
